@@ -101,33 +101,29 @@ theorem xml_lex_roundtrip : type_of% @Verif.Proofs.C09Xml.xml_lex_roundtrip := @
     from its own serialisation -/
 theorem xml_lex_sound : type_of% @Verif.Proofs.C09Xml.xml_lex_sound := @Verif.Proofs.C09Xml.xml_lex_sound
 
-/-- **XML, bytes level, no guard**: for every byte string the independent tokeniser accepts, the output of the model of
+/-- **XML, bytes level**: for every byte string the independent tokeniser accepts, the output of the model of
     `xml.Minify` on its tokens is accepted again and re-tokenises to exactly the intended stream.  NOTE the front end here is
     the SPECIFICATION tokeniser (PI data is one raw item); the real dependency lexer splits PI data into pseudo-attributes
-    and deviates on DOCTYPE/PI corner cases (K-C09-Xml-1, -4, -5) — for streams of the real lexer's shape use the guarded
-    `xml_output_relexes_partial` -/
+    and deviates on DOCTYPE (K-C09-Xml-4, open) and on `>` inside PI data (K-C06-8) — for streams of the real lexer's
+    shape use `xml_output_relexes` (full since /repo 59fe76b) -/
 theorem xml_accepted_in_accepted_out : type_of% @Verif.Proofs.C09Xml.xml_accepted_in_accepted_out :=
   @Verif.Proofs.C09Xml.xml_accepted_in_accepted_out
 
 /-- every finite sequence of passes (any options) over an accepted document is defined and ends in an accepted document -/
 theorem xml_passes_defined : type_of% @Verif.Proofs.C09Xml.xml_passes_defined := @Verif.Proofs.C09Xml.xml_passes_defined
 
-/-- **XML flagship** (guard: trigger of K-C09-Xml-1): for all options and all lexer-contract streams with grammatical
+/-- **XML flagship** (full since /repo 59fe76b): for all options and all lexer-contract streams with grammatical
     tokens, the output bytes of the model of `xml.Minify` re-tokenise to exactly the emitted stream (reader's view),
     which is grammatical -/
-theorem xml_output_relexes_partial : type_of% @Verif.Proofs.C09Xml.xml_output_relexes_partial :=
-  @Verif.Proofs.C09Xml.xml_output_relexes_partial
+theorem xml_output_relexes : type_of% @Verif.Proofs.C09Xml.xml_output_relexes :=
+  @Verif.Proofs.C09Xml.xml_output_relexes
 
 /-- the stream read back has exactly the markup skeleton (tags, attributes, CDATA, DOCTYPE, PI targets) and the bytes
     of the emitted stream -/
 theorem xml_output_markup_exact : type_of% @Verif.Proofs.C09Xml.xml_output_markup_exact :=
   @Verif.Proofs.C09Xml.xml_output_markup_exact
 
-/-- the unguarded flagship statement is false: `<a><?x k="?&gt;"?></a>` → `<a><?x k="?>"?></a>` (K-C09-Xml-1) -/
-theorem xml_output_relexes_counterexample : type_of% @Verif.Proofs.C09Xml.xml_output_relexes_counterexample :=
-  @Verif.Proofs.C09Xml.xml_output_relexes_counterexample
-
-/-- **XML second pass** (same guard): the stream read back from the output satisfies all hypotheses of the C06 and
+/-- **XML second pass** (full): the stream read back from the output satisfies all hypotheses of the C06 and
     C09 theorems again; the output of a second pass (any options) re-tokenises to its intended stream -/
 theorem xml_second_pass_defined : type_of% @Verif.Proofs.C09Xml.xml_second_pass_defined :=
   @Verif.Proofs.C09Xml.xml_second_pass_defined
